@@ -9,6 +9,13 @@ The parsing/printing helpers are reused by the C19 driver.
   mapkey <gen> <kvsA> <kvsB>  => <found b in {a}> <len {a,b}>
   merge  <gen> <kvsA> <kvsB>  => <kvs>
   encode <gen> <kvs> <emits>  => x<encoded>
+  seq    <gen> <op> | <op> | …  => <results of op 1> | <results of op 2> | … ;; <the same results read again at the end>
+         op = set <kvs> | newset <kvs> <filter> | filter <i> <filter> | merge <i> <j> | value <i> x<key>
+         (i, j index the Sets created so far: set, newset and filter append one each);
+         results: set ↦ <set>; newset ↦ <set> <dropped> <after>; filter ↦ <kept> <dropped> <sets[i]>;
+         merge ↦ <kvs>; value ↦ - | =<val>
+The generator tag may end in `~<digits>`: which family of public constructors built the values
+(harness only; the typed values on the line are the same whatever the constructor).
 
 kvs = `-` | `<hexkey>=<val>,…`; val = n | b0 | b1 | i<16hex> | f<16hex> | s<hex> | B.1.0 | I.<16hex>… |
 F.<16hex>… | S.<hex>… (every slice element is preceded by a dot);
@@ -96,6 +103,90 @@ def tags (l : List (Bool × String)) : String :=
 def hasDupKey (l : List KV) : Bool := (Spec.keys l).eraseDups.length != l.length
 
 def okFail (b : Bool) : String := if b then "ok" else "FAIL"
+
+/-- split a token list at every occurrence of `sep` -/
+def splitToks (sep : String) (toks : List String) : List (List String) :=
+  let r := toks.foldl (fun (acc : List (List String) × List String) t =>
+    if t == sep then (acc.1 ++ [acc.2], []) else (acc.1, acc.2 ++ [t])) ([], [])
+  r.1 ++ [r.2]
+
+/-- one parsed `seq` op: the model op, and the Spec check of its observed results given the
+reference contents of the Sets created so far (returns the reference Set it appends, if any) -/
+structure SeqParsed where
+  op : SeqOp
+  nsets : Nat → Bool                                  -- are the indices in range?
+  check : List (List KV) → List (List KV) → Bool      -- reference sets → observed results → ok
+  newRef : List (List KV) → Option (List KV)
+  tag : List (List KV) → String
+
+def parseSeqOp (toks : List String) : Option SeqParsed :=
+  match toks with
+  | ["set", kS] => do
+    let kvs ← parseKVs kS
+    pure { op := .set kvs, nsets := fun _ => true, tag := fun _ => "set",
+           check := fun _ o => o == [Spec.canon kvs], newRef := fun _ => some (Spec.canon kvs) }
+  | ["newset", kS, fS] => do
+    let kvs ← parseKVs kS
+    let f ← parseFilter fS
+    pure { op := .newset kvs f, nsets := fun _ => true, tag := fun _ => "newset",
+           check := fun _ o => match o with
+             | [s, d, a] => Spec.newSetOK kvs f s d a
+             | _ => false,
+           newRef := fun _ => some ((Spec.canon kvs).filter (Spec.keepOf f)) }
+  | ["filter", iS, fS] => do
+    let i ← iS.toNat?
+    let f ← parseFilter fS
+    pure { op := .filter i f, nsets := fun n => i < n,
+           tag := fun refs => (match f with
+             | none => "filter-nil"
+             | some re => match splitLastDropped re (refs.getD i []) with
+               | none => "filter-nonedropped"
+               | some t => if t.1.isEmpty then "filter-first0" else "filter-general"),
+           check := fun refs o => match o with
+             | [k, d, orig] => Spec.filterOK (refs.getD i []) f k d orig
+             | _ => false,
+           newRef := fun refs => some ((refs.getD i []).filter (Spec.keepOf f)) }
+  | ["merge", iS, jS] => do
+    let i ← iS.toNat?
+    let j ← jS.toNat?
+    pure { op := .merge i j, nsets := fun n => i < n && j < n, tag := fun _ => "merge",
+           check := fun refs o => match o with
+             | [m] => Spec.mergeOK (refs.getD i []) (refs.getD j []) m
+             | _ => false,
+           newRef := fun _ => none }
+  | ["value", iS, kS] => do
+    let i ← iS.toNat?
+    let k ← parseHex kS
+    pure { op := .value i k, nsets := fun n => i < n, tag := fun _ => "value",
+           check := fun refs o => o == [valRes (Spec.lookup (refs.getD i []) k)],
+           newRef := fun _ => none }
+  | _ => none
+
+def showResults (r : List (List (List KV))) : String :=
+  " | ".intercalate (r.map (fun g => " ".intercalate (g.map showKVs)))
+
+def stepSeq (inp obs : List String) : Option Verdict := do
+  let ops ← (splitToks "|" inp).mapM parseSeqOp
+  let halves := splitToks ";;" obs
+  let (retT, endT) ← (match halves with | [a, b] => some (a, b) | _ => none)
+  let atReturn ← (splitToks "|" retT).mapM (fun g => g.mapM parseKVs)
+  let atEnd ← (splitToks "|" endT).mapM (fun g => g.mapM parseKVs)
+  -- indices in range, reference Sets, per-op Spec on the results as returned
+  let walk := ops.zip atReturn |>.foldl (fun (acc : Bool × Bool × List (List KV) × List String) (p : SeqParsed × List (List KV)) =>
+    let (inRange, ok, refs, tgs) := acc
+    (inRange && p.1.nsets refs.length, ok && p.1.check refs p.2,
+      (match p.1.newRef refs with | some r => refs ++ [r] | none => refs), tgs ++ [p.1.tag refs])) (true, true, [], [])
+  if !walk.1 || ops.length != atReturn.length then none
+  let m := (runSeq (ops.map (·.op))).results
+  let stable := Spec.resultsStable atReturn atEnd
+  let spec := walk.2.1 && stable
+  let tgs := walk.2.2.2
+  -- a Filter that drops something, after an earlier Filter that dropped something
+  let dropping := (tgs.filter (fun t => t == "filter-first0" || t == "filter-general")).length
+  let br := tags ((tgs.eraseDups.map (fun t => (true, t))) ++
+    [(decide (dropping ≥ 2), "drop-after-drop"), (!stable, "UNSTABLE")])
+  pure { agree := m == atReturn && m == atEnd, spec := okFail spec, nontrivial := ops.length ≥ 2,
+         branches := br, model := showResults m }
 
 def stepLine (_ : Unit) (toks : List String) : Unit × Option Verdict :=
   let (inp, obs) := splitObs toks
@@ -211,6 +302,7 @@ def stepLine (_ : Unit) (toks : List String) : Unit × Option Verdict :=
     let br := tags [(s.isEmpty, "empty"), (s.length == 1, "one"), (s.length > 1, "many"), (esc, "escaped")]
     pure { agree := m == o && emitsOK, spec := okFail spec, nontrivial := !s.isEmpty, branches := br,
            model := hexOf m }
+  | "seq" :: _ :: ops, _ => stepSeq ops obs
   | _, _ => none)
 
 end Otel.C05.Drv
